@@ -14,7 +14,7 @@ import time
 
 def main():
     spec = json.loads(sys.argv[1])
-    sys.path.insert(0, "/repo/src")
+    sys.path.insert(0, os.environ.get("VF_REPO_SRC", "/repo/src"))
     import logging
 
     logging.disable(logging.CRITICAL)
